@@ -8,7 +8,7 @@ ID = "C08"
 LEAN_MODULES = ["CatiiProps.C08"]
 RULE = ("exhaustive: all ordered pairs of subsets of a small universe containing 0 and 2^32-1 (6 elements quick, 8 "
         "thorough) for the three kernels, x {array, None} for the three wrappers; all lists of <=3 arrays drawn from "
-        "subsets of a 4-universe (+ random longer lists) for the k-way union; random long pairs over eleven overlap "
+        "subsets of a 4-universe (+ random longer lists) for the k-way union; operands sharing 65537 .. 70000 row ids; random long pairs over eleven overlap "
         "patterns (incl. skewed lengths 1-4 vs 65-5000), passed contiguous, as views into longer buffers whose "
         "neighbouring words are row ids of the other operand, as stride-2/3 views and as backwards views of descending "
         "buffers; the exhaustive 6-universe pairs again as stride-2 and backwards views. Non-trivial = both operands non-empty arrays (or >=2 non-empty arrays for k-way); distinct by input")
@@ -201,6 +201,21 @@ def run(ctx):
         emb = ctx.rng.choice(VIEWS)
         for fn in FN2 + WR:
             check_one(ctx, so, fn, a, b, reqs, pend, embed=emb)
+    # operands sharing more than 2^16 row ids (oracle only)
+    for na, nb, step_b in ((70000, 70000, 1), (100000, 140000, 2), (65537, 65537, 1)):
+        a = np.arange(0, na, dtype=np.uint32)
+        b = np.arange(0, nb * step_b, step_b, dtype=np.uint32)[:nb]
+        for fn, f, ref in (("inter", so.set_intersect_merge_np, np.intersect1d), ("union", so.set_union_merge_np, np.union1d),
+                           ("diff", so.set_difference_merge_np, np.setdiff1d)):
+            case = {"fn": fn, "big": [na, nb, step_b]}
+            ctx.case(case, nontrivial=True)
+            ctx.hit("big_operands")
+            try:
+                r = np.asarray(f(a, b))
+                if not np.array_equal(r, ref(a, b)) or r.dtype != np.uint32:
+                    ctx.oracle_fail("%s on operands of %d and %d row ids returned a wrong result" % (fn, na, nb), case, cls="C08-wrong-result")
+            except Exception as e:
+                ctx.oracle_fail("%s on operands of %d and %d row ids raised %s" % (fn, na, nb, type(e).__name__), case, cls="C08-raises")
     if ctx.oracle_only:
         return
     ans = ctx.model.run(reqs)
@@ -216,6 +231,13 @@ def run(ctx):
 def replay(ctx, rep):
     so = core.load_kernels("plain")
     c = rep["case"]
+    if "big" in c:
+        na, nb, step_b = c["big"]
+        a = np.arange(0, na, dtype=np.uint32)
+        b = np.arange(0, nb * step_b, step_b, dtype=np.uint32)[:nb]
+        f = {"inter": so.set_intersect_merge_np, "union": so.set_union_merge_np, "diff": so.set_difference_merge_np}[c["fn"]]
+        ref = {"inter": np.intersect1d, "union": np.union1d, "diff": np.setdiff1d}[c["fn"]]
+        return np.array_equal(np.asarray(f(a, b)), ref(a, b))
     if c["fn"] == "union_many":
         v = c.get("view", False)
         r = so.set_union_merge_many([as_view(a, c["arrays"][(j + 1) % len(c["arrays"])], v) for j, a in enumerate(c["arrays"])])
